@@ -493,6 +493,18 @@ class DB:
         rx = re.compile(pattern)
         return [self.bodies[i] for i, p in self.path_of.items() if rx.search(p)]
 
+    def find_bodies_mentioning(self, pattern, *texts):
+        """bodies whose path matches `pattern` and whose raw fact line contains one of `texts` (cheap pre-filter
+        before parsing: field names and callee paths appear literally in the facts)"""
+        rx = re.compile(pattern)
+        out = []
+        for i, p in self.path_of.items():
+            if rx.search(p):
+                raw = self.bodies.raw.get(i)
+                if raw is None or any(t in raw for t in texts):
+                    out.append(self.bodies[i])
+        return out
+
     def one_body(self, pattern):
         bs = self.find_bodies(pattern)
         if len(bs) != 1:
